@@ -50,14 +50,14 @@ def delays(named):
 
 def single_reaction_specs(tier):
     out = []
-    maxlen = 2 if tier == 'quick' else 4
+    maxlen = 3 if tier == 'quick' else 4
     sides = list(sequences(SP, 0, maxlen))
     x0 = {'A': 2.0, 'B': 3.0, 'C': 1.5}
     for named in (False, True):
         for pname, mk in propensities(named):
             for i, r in enumerate(sides):
                 for j, p in enumerate(sides):
-                    if (tier == 'quick' and (i + 2 * j) % 5 != 0) or (tier == 'thorough' and pname != 'massaction' and (i + j) % 7 != 0) \
+                    if (tier == 'quick' and ((i + 2 * j) % 5 != 0 or (pname != 'massaction' and len(r) + len(p) > 3) or (len(r) + len(p) > 4 and (i + j) % 3 != 0))) or (tier == 'thorough' and pname != 'massaction' and (i + j) % 7 != 0) \
                             or (tier == 'thorough' and pname == 'massaction' and len(r) + len(p) > 5 and (i + j) % 3 != 0):
                         continue
                     out.append(spec('%s/%s' % (pname, 'named' if named else 'numeric'), SP, x0, [mk(r, p)], PARAMS))
